@@ -16,7 +16,7 @@ cd /verif
 VERIF_REPO=$W VERIF_EVIDENCE=/tmp/seedtest-evidence-$1-$ID.json ./check $ID $TIER > /tmp/seedtest-$1-$ID.log 2>&1
 rc=$?
 git -C /repo worktree remove --force "$W"
-rm -rf /verif/.build/alt-*seedrepo*
+rm -rf "/verif/.build/alt-$(echo "$W" | tr -c 'A-Za-z0-9' _)"
 echo "seed=$1 check=$ID tier=$TIER exit=$rc"
 grep -E '^(VIOLATION|  detail|BUILD-FAILED)' /tmp/seedtest-$1-$ID.log | cut -c1-400 | head -8
 exit 0
